@@ -134,6 +134,24 @@ fn check_order(i: u64, acc: &mut Acc) {
     }
 }
 
+/// Printing is a function of the value alone: every ordered pair of valid times printed one after the other on the
+/// same thread (S-C19-g keeps a thread-local table of rendered texts keyed by 11 bits of the minute count).
+fn check_display_pairs(i: u64, acc: &mut Acc) {
+    let n = (MAX + 1) as u64;
+    let (a, b) = ((i / n) as u16, (i % n) as u16);
+    let ta = ExtendedTime::from_mins_from_midnight(a).unwrap();
+    let tb = ExtendedTime::from_mins_from_midnight(b).unwrap();
+    acc.case(a.abs_diff(b) % 1024 == 0 || a.abs_diff(b) % 60 == 0);
+    use std::fmt::Write;
+    let mut text = String::with_capacity(24);
+    let _ = write!(text, "{ta}|{tb}|{tb:?}");
+    let (ea, eb) = (format!("{:02}:{:02}", a / 60, a % 60), format!("{:02}:{:02}", b / 60, b % 60));
+    let mut parts = text.split('|');
+    if parts.next() != Some(ea.as_str()) || parts.next() != Some(eb.as_str()) || parts.next() != Some(eb.as_str()) {
+        acc.fail("display_pairs", format!("display_pairs {a} {b}"), format!("printing {ea} then {eb} (Display, Display, Debug) gives {text:?}"));
+    }
+}
+
 fn check_naive(i: u64, acc: &mut Acc) {
     // every second of the day: From<NaiveTime> drops the seconds and inverts TryInto
     let secs = i as u32;
@@ -175,6 +193,7 @@ fn extra(_tier: Tier, _seed: u64) -> Vec<SubOutcome> {
         par_enumerate("from_mins", "all u16 minute counts; non-trivial = within 00:00..49:00", 65536, check_from_mins),
         par_enumerate("add_minutes", "all 2881 valid times x all i16 offsets vs integer addition; non-trivial = result or operand on/next to 00:00, 24:00, 48:00 or just outside the range", n_valid << 16, check_add_minutes),
         par_enumerate("add_hours", "all 2881 valid times x all i8 offsets vs integer addition; non-trivial = boundary operand/result or result within one hour outside the range", n_valid << 8, check_add_hours),
+        par_enumerate("display_pairs", "all ordered pairs of valid times printed one after the other (Display of the first, Display and Debug of the second) on the same thread: each text is the zero-padded HH:MM of its own value; non-trivial = minute counts differing by a multiple of 1024 or of 60", n_valid * n_valid, check_display_pairs),
         par_enumerate("order", "all ordered pairs of valid times: Ord/PartialOrd/Eq vs minute ordering; non-trivial = within one hour of each other or hour/minute components disagreeing in order", n_valid * n_valid, check_order),
         par_enumerate("naive", "all 86400 seconds of a day, each also with 1 ns, 999 999 999 ns and (second 59) chrono's leap-second representation: From<NaiveTime> then TryInto<NaiveTime>; non-trivial = non-zero seconds or full hour", 86400, check_naive),
         par_enumerate("consts", "the three public constants", 1, consts),
@@ -192,6 +211,7 @@ fn replay_text(text: &str, case: &mut Case) -> Result<(), String> {
         Some("from_mins") => check_from_mins(num(1) as u64, &mut acc),
         Some("add_minutes") => check_add_minutes(((num(1) as u64) << 16) | (num(2) as i16 as u16 as u64), &mut acc),
         Some("add_hours") => check_add_hours(((num(1) as u64) << 8) | (num(2) as i8 as u8 as u64), &mut acc),
+        Some("display_pairs") => check_display_pairs(num(1) as u64 * (MAX as u64 + 1) + num(2) as u64, &mut acc),
         Some("order") => check_order(num(1) as u64 * (MAX as u64 + 1) + num(2) as u64, &mut acc),
         Some("naive") => check_naive(num(1) as u64, &mut acc),
         _ => consts(0, &mut acc),
@@ -223,6 +243,7 @@ pub fn property() -> Property {
             text_sub("from_mins"),
             text_sub("add_minutes"),
             text_sub("add_hours"),
+            text_sub("display_pairs"),
             text_sub("order"),
             text_sub("naive"),
             text_sub("consts"),
